@@ -56,6 +56,17 @@ def doProg (udp : Bool) (epKey epLimit limit k : Nat) : List Act :=
   [.startCall k 30000] ++ limiterPart udp "LimitParallelRequests.Do" epKey epLimit limit ++ [.send k] ++ ackPart udp k ++
   rep (preceded "Conn.doInternal" "select") ++ [.wait (.delivered k) (wakesOnClose "Conn.doInternal")] ++ [.endCall k]
 
+/-- `Do` with a non-confirmable request: on the datagram transport the write does not wait for an acknowledgement -/
+def doNonProg (udp : Bool) (epKey epLimit limit k : Nat) : List Act :=
+  [.startCall k 30000] ++ limiterPart udp "LimitParallelRequests.Do" epKey epLimit limit ++ [.send k] ++
+  rep (preceded "Conn.doInternal" "select") ++ [.wait (.delivered k) (wakesOnClose "Conn.doInternal")] ++ [.endCall k]
+
+/-- application code that takes `ms` without touching the connection (a blocking wait nobody asked a replacement for, which
+    nothing but the clock ends): exchange `sleepBase + ms` is never sent, so it is never delivered -/
+def sleepBase : Nat := 50000
+def sleepProg (ms : Nat) : List Act :=
+  [.startCall (sleepBase + ms) ms, .wait (.delivered (sleepBase + ms)) false, .endCall (sleepBase + ms)]
+
 def observeProg (udp : Bool) (epKey epLimit limit k : Nat) : List Act :=
   [.startCall k 20000] ++ limiterPart udp "LimitParallelRequests.DoObserve" epKey epLimit limit ++
   rep (handed udp "Conn.doObserve" "Handler.NewObservation") ++ [.send k] ++ ackPart udp k ++
